@@ -777,6 +777,10 @@ const E2E_CASES: &[(&str, &str, &str)] = &[
     ("exact_dep", "xs: List<Int> via exact(dep_list())", "sum(xs) < 200"),
     ("fuzzer_crash", "n: Int via crashy(240)", "n < 100"),
     ("fuzzer_crash_pass", "n: Int via crashy(250)", "n >= 0"),
+    // a property that ERRORS on some inputs and merely returns False on smaller ones: under Plutus V1/V2
+    // only the error is a failure, so the shrinker must classify candidates with the run's own version
+    ("err_or_false", "n: Int via int()", "if n >= 100 {\n    fail\n  } else {\n    n >= 10\n  }"),
+    ("err_or_false_pair", "t: (Int, Int) via pair(int(), int())", "if t.1st + t.2nd >= 300 {\n    fail\n  } else {\n    t.1st > 5\n  }"),
     ("labels", "b: Bool via bool()", "{\n    if b { label(@\"head\") } else { label(@\"tail\") }\n    True\n  }"),
     ("labels_fail", "n: Int via int()", "{\n    if n < 128 { label(@\"low\") } else { label(@\"high\") }\n    n < 240\n  }"),
 ];
@@ -906,6 +910,74 @@ fn reference(prop: &PropertyTest, seed: u32, n: usize, pv: &PlutusVersion) -> Re
     out
 }
 
+fn fingerprint(r: &aiken_lang::test_framework::PropertyTestResult<PlutusData>) -> String {
+    format!(
+        "ce={} it={} labels={:?}",
+        match &r.counterexample {
+            Ok(Some(v)) => wire::data(v),
+            Ok(None) => "none".into(),
+            Err(e) => format!("error {e:?}"),
+        },
+        r.iterations,
+        r.labels
+    )
+}
+
+const HISTORY_CASES: [usize; 3] = [1, 5, 24];
+
+fn history_source(ci: usize) -> String {
+    let (_, via, body) = E2E_CASES[ci % E2E_CASES.len()];
+    format!("{PRELUDE}\ntest prop({via}) {{\n  {body}\n}}\n")
+}
+
+/// child entry: `c16-child <case index> <seed> <n>` — ONE run in a fresh process, fingerprint on stdout
+pub fn child(args: &[String]) -> ! {
+    silence_stderr();
+    let ci: usize = args[2].parse().expect("case");
+    let seed: u32 = args[3].parse().expect("seed");
+    let n: usize = args[4].parse().expect("n");
+    let prop = compile_property(&history_source(ci)).expect("compile");
+    let r = prop.run(seed, n, &PlutusVersion::default());
+    println!("{}", fingerprint(&r));
+    std::process::exit(0)
+}
+
+/// "a function of the seed and the code alone": what a run reports for seed s must not depend on which
+/// seeds this process used before — compared with a fresh process that only ever sees s
+fn history_independence(rep: &mut Report, n: usize) {
+    let exe = match std::env::current_exe() {
+        Ok(e) => e,
+        Err(_) => return,
+    };
+    for &ci in HISTORY_CASES.iter() {
+        let prop = match compile_property(&history_source(ci)) {
+            Ok(p) => p,
+            Err(_) => continue,
+        };
+        for seed in [7u32, 42, 123_456_789] {
+            rep.evaluations += 1;
+            let here = fingerprint(&prop.clone().run(seed, n, &PlutusVersion::default()));
+            let out = std::process::Command::new(&exe).args(["c16-child", &ci.to_string(), &seed.to_string(), &n.to_string()]).output();
+            let fresh = match out {
+                Ok(o) if o.status.success() => String::from_utf8_lossy(&o.stdout).trim().to_string(),
+                _ => {
+                    rep.count("history:child-failed");
+                    continue;
+                }
+            };
+            rep.count("history:compared-with-fresh-process");
+            if here != fresh {
+                rep.fail(
+                    &format!("e2e:history:{}:seed={seed}", E2E_CASES[ci % E2E_CASES.len()].0),
+                    "the report for a seed depends on what the process ran before (differs from a fresh process running only that seed)",
+                    json!({"case": E2E_CASES[ci % E2E_CASES.len()].0, "seed": seed, "n": n}),
+                    json!({"after_other_seeds": here, "fresh_process": fresh}),
+                );
+            }
+        }
+    }
+}
+
 pub fn e2e(ctx: &Ctx) -> Report {
     silence_stderr();
     let seeds = arg_usize("--seeds", if ctx.thorough { 400 } else { 40 });
@@ -918,8 +990,6 @@ pub fn e2e(ctx: &Ctx) -> Report {
          re-evaluated, regenerated from its choices, <= first failing case in shortlex. \
          Non-trivial = distinct (case, expectation, seed) that reported a counterexample needing >= 1 choice",
     );
-    let pv = PlutusVersion::default();
-    let lang: pallas_primitives::conway::Language = (&pv).into();
     let mut r = Rng::new(ctx.seed);
     let seed_list: Vec<u32> = (0..seeds)
         .map(|i| match i {
@@ -944,9 +1014,17 @@ pub fn e2e(ctx: &Ctx) -> Report {
                 rep.fail(&format!("e2e:{case}:otf"), "expectation keyword parsed to a different OnTestFailure", json!({"case": case}), json!({"got": format!("{:?}", prop.on_test_failure)}));
             }
             rep.count(&format!("case:{name}"));
-            for &seed in &seed_list {
+            // every seed under the default version; a share of them under V2 as well (different meaning of
+            // "failed": only an erroring evaluation)
+            let runs: Vec<(u32, PlutusVersion, &str)> = seed_list
+                .iter()
+                .map(|s| (*s, PlutusVersion::default(), ""))
+                .chain(seed_list.iter().take(seed_list.len().min(if ctx.thorough { 60 } else { 10 })).map(|s| (*s, PlutusVersion::V2, ":v2")))
+                .collect();
+            for (seed, pv, vtag) in runs {
+                let lang: pallas_primitives::conway::Language = (&pv).into();
                 rep.evaluations += 1;
-                let key = format!("e2e:{case}:seed={seed}");
+                let key = format!("e2e:{case}{vtag}:seed={seed}");
                 let outcome = report::guarded(std::panic::AssertUnwindSafe(|| {
                     let mut problems: Vec<(String, serde_json::Value)> = vec![];
                     let r1 = prop.clone().run(seed, n, &pv);
@@ -1053,5 +1131,6 @@ pub fn e2e(ctx: &Ctx) -> Report {
             }
         }
     }
+    history_independence(&mut rep, n);
     rep
 }
